@@ -3,4 +3,6 @@ package checks
 
 import (
 	_ "verifmc/checks/c06"
+	_ "verifmc/checks/c17"
+	_ "verifmc/checks/c18"
 )
